@@ -25,6 +25,11 @@ class Sched:
         self.failed = None
         self.seen_lines = set()
         self.first = []
+        self.frames = {}
+        self.windows = []
+        self._quiet_now = False
+        self.invocations = []
+        self.phase = 0
 
     def start(self, bodies):
         ths = []
@@ -37,9 +42,15 @@ class Sched:
         for t in ths:
             t.join()
 
+    def quiet(self):
+        """True when the schedule has no switch left: nobody needs pre-emption points any more, tracing stops."""
+        ex = getattr(self.decide, 'exhausted', None)
+        return bool(ex and ex()) and not self.record_hot
+
     def _body(self, name, fn):
         self.sems[name].acquire()
-        sys.settrace(self._tr)
+        if not self.quiet():
+            sys.settrace(self._tr)
         try:
             fn()
         except BaseException as e:      # harness failure inside a thread
@@ -54,10 +65,18 @@ class Sched:
     def _tr(self, frame, event, arg):
         fn = frame.f_code.co_filename
         if LIBMARK[0] in fn or LIBMARK[1] in fn:
+            if self.record_hot:
+                vn = frame.f_code.co_varnames
+                oid = None
+                if vn and vn[0] in ('self', 'cls'):
+                    oid = id(frame.f_locals.get(vn[0]))
+                self.frames[id(frame)] = [[], False, oid, frame.f_code.co_name, frame.f_code.co_filename]
             return self._loc
         return None
 
     def _loc(self, frame, event, arg):
+        if self._quiet_now:
+            return None
         if event == 'line':
             me = threading.current_thread().name[5:]
             self.count += 1
@@ -72,16 +91,33 @@ class Sched:
                 elif vn and vn[0] == 'self':
                     owner = type(frame.f_locals.get('self')).__name__
                 key = (frame.f_code.co_filename, frame.f_lineno, owner)
+                fr = self.frames.get(id(frame))
+                if fr is not None:
+                    fr[0].append(self.per_thread[me])
                 if key not in self.seen_lines:
-                    # first execution of this line for this owner class: where lazily initialised state is filled
+                    # first execution of this line for this owner class: where lazily initialised state is filled.
+                    # The whole invocation it belongs to becomes a window (loop iterations included).
                     self.seen_lines.add(key)
                     self.first.append(self.per_thread[me])
+                    if fr is not None:
+                        fr[1] = True
             nxt = self.decide(self, me, frame)
             if nxt is not None and nxt != me and nxt in self.alive:
                 self.log.append([self.per_thread[me], me, nxt, os.path.basename(frame.f_code.co_filename), frame.f_lineno,
                                  frame.f_code.co_name])
                 self.sems[nxt].release()
                 self.sems[me].acquire()
+                if self.quiet():
+                    self._quiet_now = True
+                    sys.settrace(None)
+                    return None
+        elif event == 'return' and self.record_hot:
+            fr = self.frames.pop(id(frame), None)
+            if fr is not None and threading.current_thread().name[5:] == self.names[0]:
+                if fr[1]:
+                    self.windows.extend(fr[0][:40])
+                if fr[2] is not None and fr[0]:
+                    self.invocations.append((fr[2], fr[3], fr[4], fr[0][:16], self.phase))
         return self._loc
 
 
@@ -100,6 +136,7 @@ def make_decider(schedule, names):
                 fired[0] = True
                 return names[1]
             return None
+        d.exhausted = lambda: fired[0]
         return d
     if kind == 'list':
         # explicit switch points: [[per-thread count of the running thread, thread that runs, to], ...]
@@ -113,6 +150,7 @@ def make_decider(schedule, names):
                     idx[0] += 1
                     return to
             return None
+        d.exhausted = lambda: idx[0] >= len(sw)
         return d
     if kind == 'pct':
         rng = random.Random(schedule['seed'])
@@ -131,6 +169,7 @@ def make_decider(schedule, names):
                     left[0] -= 1
                     return rng.choice(others)
             return None
+        d.exhausted = lambda: left[0] <= 0
         return d
     raise ValueError(kind)
 
@@ -140,6 +179,7 @@ def run_threads(job, lib):
     programs = job['programs']
     names = ['T%d' % i for i in range(len(programs))]
     worlds = {}
+    keep = []
     sched = Sched(names, make_decider(job.get('schedule') or {}, names), record_hot=job.get('record_hot', False))
     bodies = {}
     for n, prog in zip(names, programs):
@@ -149,13 +189,36 @@ def run_threads(job, lib):
         def body(w=w, prog=prog):
             for op in prog:
                 w.execute(op)
+            if job.get('record_hot'):
+                # second pass on fresh documents (same process): tells shared objects from per-document ones
+                sched.lines_pass1 = sched.per_thread[sched.names[0]]
+                sched.phase = 1
+                w2 = World(lib, {'light': True, 'budget': False})
+                for op in prog:
+                    w2.execute(op)
+                keep.append(w2)
         bodies[n] = body
     sched.start(bodies)
     out = {'threads': {n: worlds[n].events for n in names}, 'switches': sched.log, 'lines': sched.count,
            'per_thread_lines': sched.per_thread, 'failed': sched.failed}
     if job.get('record_hot'):
         out['hot'] = sched.hot
-        out['first'] = sched.first
+        # shared objects = objects that serve as self/cls in both passes of the program (pass 2 is the same
+        # program on fresh documents); the first invocation of each method on each shared object is a window
+        p1 = {}
+        p2 = set()
+        for oid, name, fn, counts, phase in sched.invocations:
+            if phase == 0:
+                p1.setdefault((oid, name, fn), counts)
+            else:
+                p2.add(oid)
+        shared = []
+        for (oid, name, fn), counts in p1.items():
+            if oid in p2:
+                shared.extend(counts)
+        out['first'] = sorted(set(sched.first) | set(sched.windows))
+        out['shared_first'] = sorted(set(shared))
+        out['lines_pass1'] = getattr(sched, 'lines_pass1', None)
     if job.get('canary'):
         wc = World(lib, {'light': True, 'budget': False})
         for op in job['canary']:
